@@ -316,7 +316,7 @@ def model_expr(case):
     if case["fn"] == "sanitize_records":
         chunks = C.lst([C.lst([coq_rec(r) for r in ch]) for ch in case["chunks"]])
         return (f"map (fun ch => match sanitize_records blocks {C.b(o['one_based'])} {C.b(o['validate'])} {ta} ch with "
-                f"None => None | Some rs => Some (rs, aggregate_records rs, collect (map (sanitize1 blocks {C.b(o['one_based'])} {C.b(o['validate'])} {ta}) ch)) end) {chunks}")
+                f"None => None | Some rs => Some (rs, aggregate_records rs, let bs := gs_binsize blocks in collect (map (sanitize1_bs bs blocks {C.b(o['one_based'])} {C.b(o['validate'])} {ta}) ch)) end) {chunks}")
     if case["fn"] == "sanitize_pixels":
         chunks = C.lst([C.lst([coq_pxrec(r) for r in ch]) for ch in case["chunks"]])
         return f"map (sanitize_pixels {C.b(o['one_based'])} {ta}) {chunks}"
@@ -694,23 +694,25 @@ def run(ctx):
     exprs = []
     for widths, cases in plan:
         bl = coq_blocks(blocks_from_widths(widths))
-        body = ", ".join(["valid_blocks_b blocks"] + [model_expr(c) for c in cases])
-        exprs.append(f"(let blocks := {bl} in ({body}))")
+        exprs.append(f"valid_blocks_b {bl}")
+        for c in cases:
+            exprs.append(f"(let blocks := {bl} in {model_expr(c)})")
     wjobs = [(str(ctx.tmp), k, widths, cases) for k, (widths, cases) in enumerate(plan)]
     pool = mp.get_context("fork").Pool(4)
     try:
         async_res = pool.map_async(table_worker, wjobs, chunksize=1)
-        model = C.coq_eval("From Cooler Require Import Model.Ingest.", exprs, tmpdir=ctx.tmp / "ingest", shard=6, jobs=3)
+        model = C.coq_eval("From Cooler Require Import Model.Ingest.", exprs, tmpdir=ctx.tmp / "ingest", shard=150, jobs=3)
         impl = async_res.get(timeout=3000)
     finally:
         pool.terminate()
 
     counts = Counter()
-    for (widths, cases), mo, im in zip(plan, model, impl):
-        mo = list(mo) if isinstance(mo, tuple) else [mo]
-        if mo[0] is not True:
-            ctx.disagree("generator produced a table the model calls invalid", {"widths": widths}, True, mo[0])
-        ms = mo[1:]
+    pos = 0
+    for (widths, cases), im in zip(plan, impl):
+        if model[pos] is not True:
+            ctx.disagree("generator produced a table the model calls invalid", {"widths": widths}, True, model[pos])
+        ms = model[pos + 1: pos + 1 + len(cases)]
+        pos += 1 + len(cases)
         if im == "timeout":
             ctx.fail({"widths": widths}, {"implementation": "timeout"}, None)
             continue
